@@ -348,3 +348,11 @@ package metrics
 //@   assumed
 //@   preserves fieldsof(TagsHolder), fieldsof(tagEntry)
 //@ end
+
+// (C09/C18 helper) the hashed-value matcher is a pure function of its arguments.
+//@ func TagValueMatches
+//@   props C18
+//@   pure
+//@   ensures [equal] implies(tagOperator == sutils.Equal, matchesThis == (actualValue == pattern) && mightMatchOtherValue == !matchesThis)
+//@   ensures [not-equal] implies(tagOperator == sutils.NotEqual, matchesThis == (actualValue != pattern) && mightMatchOtherValue)
+//@ end
